@@ -25,6 +25,8 @@ type Carrier struct {
 	NoPUSI bool `json:"no_pusi,omitempty"`
 	// Prio / scrambling bits copied into every header (must be preserved by relays)
 	TP bool `json:"tp,omitempty"`
+	// TSC: transport_scrambling_control (2 bits) of every packet
+	TSC int `json:"tsc,omitempty"`
 }
 
 // Packetise cuts payload into packets according to the carrier script.
@@ -94,6 +96,7 @@ func Packetise(payload []byte, c Carrier) []Pkt {
 			}
 			copy(p[5+afl:], payload[pos:pos+n])
 		}
+		p[3] |= byte(c.TSC&3) << 6
 		out = append(out, p)
 		pos += n
 	}
